@@ -115,11 +115,21 @@ Definition encode_dhcp4 (b : slice) (opcode mt : N) (chaddr : option bytes) (cia
    let pos := List.length ob in
    let a := blit 240 (firstn (cap b - 240) ob) a in              (* copy(p[240:cap(p)], buffer[:pos]) *)
    let n := (240 + pos)%nat in
-   if Nat.leb (cap b) n then Panic else                          (* p[n] = End *)
+   if Nat.leb (cap b) n then Ok nil_slice else                   (* repo commit 720d31a: n >= len(p) -> return nil (was: p[n] panicked) *)
    let a := set_nth n 255 a in
    let n1 := S n in
    let a := blit n1 (repeat 0 (300 - n1)) a in                   (* pad to 300 *)
    Ok (mkSlice a (Nat.max n1 300)))%res.
+
+(* what the caller's buffer holds when EncodeDHCP4 returned nil: untouched below 300 bytes of
+   capacity; otherwise header and the options that fitted have been written already *)
+Definition dhcp4_nil_buffer (b : slice) (opcode mt : N) (chaddr : option bytes) (ciaddr yiaddr : bytes)
+           (xid : option bytes) (broadcast : bool) (options : opts) (order perm : list N) : bytes :=
+  if Nat.ltb (cap b) 300 then arr b else
+  match append_options_bytes (set_opt 53 [mt] options) order perm with
+  | Ok ob => blit 240 (firstn (cap b - 240) ob) (dhcp_fixed (arr b) opcode chaddr ciaddr yiaddr xid broadcast)
+  | _ => arr b
+  end.
 
 (* ---------------------------------------------------------------- *)
 (* getters *)
